@@ -75,6 +75,12 @@ func newDisjunctionSearcher(ctx context.Context, indexReader index.IndexReader,
 				for _, s := range qsearchers {
 					_ = s.Close()
 				}
+				// the optimized searcher replaces the disjunction, so it must
+				// report the disjunction's minimum: BooleanSearcher relies on
+				// Min() to tell required should clauses from optional ones
+				if ts, ok := rv.(*TermSearcher); ok {
+					ts.min = int(min)
+				}
 				return rv, nil
 			}
 		}
